@@ -582,7 +582,21 @@ def runStress (op impl : String) : Option Ans :=
     | _, _ => none
   | _ => none
 
+/-- `S2;cap;a=<hex>;b=<hex>;wc;rc;e`: two concurrent writers and one reader.  By `C21_fifo` (every byte
+    once, in acceptance order) and because each writer offers its own bytes in order, every fair schedule
+    gives: writer A's bytes in order, writer B's bytes in order (printed separately), then the close error. -/
+def runStress2 (op impl : String) : Ans :=
+  match op.splitOn ";" with
+  | ["S2", _, aS, bS, _, _, eS] =>
+    match aS.splitOn "=", bS.splitOn "=", eS.splitOn "=" with
+    | ["a", ha], ["b", hb], ["e", e] =>
+      let want := ha ++ ";" ++ hb ++ ";err" ++ e
+      { model := want, verdict := if impl == want then "ok" else "FAIL:stress-fifo", tags := ["stress2", "nt"] }
+    | _, _, _ => { model := "bad-op", verdict := "skip" }
+  | _ => { model := "bad-op", verdict := "skip" }
+
 def run (op impl : String) : Ans :=
+  if op.startsWith "S2;" then runStress2 op impl else
   if op.startsWith "S;" then
     match runStress op impl with
     | some a => a
